@@ -158,7 +158,7 @@ def gen_instances(rng, tier):
             chosen.append(kind)
         rng.shuffle(chosen)
         for kind in chosen[:per_pair]:
-            # keep k within the own reps' limits about half of the time, so that % and <=> compile too
+            # keep k within the own reps' limits about half of the time (before the fix of F11/F17 % and <=> needed that)
             own = rng.random() < 0.6
             l1 = min(km, kmax(r1)) if own else km
             l2 = min(km, kmax(r2)) if own else km
@@ -172,7 +172,7 @@ def gen_instances(rng, tier):
             out.append(make_inst(r1, r2, kb if side else 1, 1 if side else kb, (1, 1), why="k=kmax(common)"))
             kb2 = cheap_near(km + 1, 1)
             out.append(make_inst(r1, r2, kb2 if side else 1, 1 if side else kb2, (1, 1), why="k=kmax(common)+1"))
-            # own-rep boundary (matters for % and <=> when the operand's rep is narrower than the common rep)
+            # own-rep boundary (regression for F11/F17: % and <=> used to be gated and scaled in the operand's own rep)
             for (r, left) in ((r1, True), (r2, False)):
                 ko = kmax(r)
                 if 1 < ko < km and rng.random() < 0.7:
@@ -284,7 +284,7 @@ template <class R1, class R2, class U1, class U2> struct CommonOps<R1, R2, U1, U
         snprintf(b, n, "sum=%d,%d common=%d,%d", RepInfo<S>::bits, RepInfo<S>::sg, RepInfo<typename Q::Rep>::bits, RepInfo<typename Q::Rep>::sg);
     }
 };
-// Operations that convert each operand with q.in(CommonUnitT) in its own rep (policy checked per operand).
+// operator% and operator<=>: rep_cast to the common rep, then q.in(CommonUnitT) (policy checked in the common rep).
 template <class R1, class R2, class U1, class U2, bool Ok> struct OwnOps {
     static i128 op(int, i128, i128) { return 0; }
     static void info(char* b, size_t n) { snprintf(b, n, "mod=-,-"); }
@@ -323,8 +323,7 @@ template <class R1, class R2, class U1, class U2, bool CommonOk, bool OwnOk> str
                  int(std::is_same<U1, U2>::value));
     }
 };
-// <=> converts each operand in its own rep, so an integral operand is subject to the integer policy: only the
-// float x float instances use it.
+// <=> (C++20 only): rep_cast to the common (floating) rep, then .in(common unit).
 template <class R1, class R2, class U1, class U2, bool BothFloat> struct FCmp3 {
     template <class Q1, class Q2> static long double go(const Q1&, const Q2&) { return -98; }
 };
@@ -352,7 +351,7 @@ template <class R1, class R2, class U1, class U2> struct FInst {
             case 5: return q1 >= q2;
             case 6: return static_cast<long double>((q1 + q2).in(C{}));
             case 7: return static_cast<long double>((q1 - q2).in(C{}));
-            case 9: return FCmp3<R1, R2, U1, U2, std::is_floating_point<R1>::value && std::is_floating_point<R2>::value>::go(q1, q2);
+            case 9: return FCmp3<R1, R2, U1, U2, true>::go(q1, q2);
         }
         return -99;
     }
@@ -448,8 +447,8 @@ int main() {
             const int b1 = e->bits1 < 32 ? 32 : e->bits1, s1 = e->bits1 < 32 ? 1 : e->sg1;
             const int b2 = e->bits2 < 32 ? 32 : e->bits2, s2 = e->bits2 < 32 ? 1 : e->sg2;
             const int mbits = b1 > b2 ? b1 : b2, msg = (b1 == b2) ? (s1 && s2) : (b1 > b2 ? s1 : s2);  // equal signedness only
-            const i128 mlo = tlo(mbits, msg);
-            const i128 o1lo = tlo(e->bits1, e->sg1), o1hi = thi(e->bits1, e->sg1), o2lo = tlo(e->bits2, e->sg2), o2hi = thi(e->bits2, e->sg2);
+            const i128 mlo = plo;   // rep of %: decltype(R{} % R{}) with R the common rep
+            (void)mbits; (void)msg;
             Stat st[10]; long cons_bad = 0; std::string cons_first = "-"; long cells = 0;
             const bool have3 = (__cplusplus >= 202002L);
             for (i128 v1 = lo1; v1 <= hi1; ++v1) for (i128 v2 = lo2; v2 <= hi2; ++v2) {
@@ -457,7 +456,7 @@ int main() {
                 const bool fc = fits(v1, k1, clo, chi) && fits(v2, k2, clo, chi);
                 if (!fc) continue;                       // out of the statement's scope: never executed
                 const i128 A = v1 * k1, B = v2 * k2;
-                const bool fo = fits(v1, k1, o1lo, o1hi) && fits(v2, k2, o2lo, o2hi);
+                const bool fo = true;   // since the fix of F11/F17, % and <=> scale in the common rep: one scope for all operators
                 const uint64_t wt = (((uint64_t)v1 * 6364136223846793005ull) + ((uint64_t)v2 * 1442695040888963407ull)) | 1ull;
                 i128 got[10]; bool have[10] = {false};
                 for (int w = 0; w < 10; ++w) {
@@ -793,7 +792,7 @@ def oracle(ins, op, v1, v2, k1lib, k2lib):
         else:
             res["want"] = z.numerator
     elif op == "mod":
-        m = uac(r1, r2)
+        m = promote(c)          # decltype(R{} % R{}), R the common rep
         if y == 0 or (A == ty_lo(m) and B == -1):
             res["scope"] = False
         else:
@@ -802,34 +801,6 @@ def oracle(ins, op, v1, v2, k1lib, k2lib):
     elif op == "cmp3":
         res["want"] = 0 if x < y else (1 if x == y else 2)
     return res
-
-
-def wrap_to(t, x):
-    _, b, sg = INT_TYPES[t]
-    r = x % (1 << b)
-    return r - (1 << b) if sg and r >= (1 << (b - 1)) else r
-
-
-def would_trap(ins, A, B):
-    """The implementation's `%` operands after scaling in the own reps: zero divisor or min % -1."""
-    aw, bw = wrap_to(ins["r1"], A), wrap_to(ins["r2"], B)
-    return bw == 0 or (bw == -1 and aw == ty_lo(uac(ins["r1"], ins["r2"])))
-
-
-PENDING_FINDINGS = [
-    # F11 (reported to the coordinator, not yet in known_findings.json): operator% and operator<=> convert each
-    # operand with q.in(CommonUnitT) in its OWN rep instead of the common rep.  With different reps, a scaled
-    # operand that fits the common rep but not its own rep is narrowed (8/16-bit) or overflows (UB, 32-bit in a
-    # 64-bit common rep): `%` returns a wrong remainder and `<=>` contradicts `<`.
-    {"key": "F11", "ops": ["mod", "cmp3"], "what": "% and <=> scale each operand in its own rep, not the common rep"},
-]
-
-
-def is_pending(rec):
-    """Narrow structural match for PENDING_FINDINGS: op is % or <=>, the reps differ, the scaled operands
-    fit the common rep (statement scope) but not both own reps."""
-    return (rec.get("op") in ("mod", "cmp3") and rec.get("r1") != rec.get("r2") and rec.get("fits_common") is True
-            and rec.get("fits_own") is False and rec.get("kind") == "oracle")
 
 
 # ------------------------------------------------------------------------------------------------
@@ -888,7 +859,6 @@ def explore(prop, tier, seed, rng, wd):
     insts += [x for t in tri for x in t["insts"]]
     finsts = gen_float_instances(rng, tier)
     violations = []
-    pending = []
     mu = model_units(drv, insts + finsts)
     gates = model_gates(drv, insts, mu)
     files = write_harness(wd, insts + finsts, gates)
@@ -901,7 +871,7 @@ def explore(prop, tier, seed, rng, wd):
              "ratio_classes": {}, "gate": {"common_ok": 0, "common_rejected": 0, "own_ok": 0, "own_rejected": 0},
              "windows": 0, "window_cells": 0, "window_op_evals": 0, "digest_cells": 0, "points": 0, "point_op_evals": 0,
              "skipped_out_of_scope": 0, "float_op_evals": 0, "float_ambiguous": 0, "float_max_err_u": 0.0,
-             "neg_probes": 0, "transitivity_checks": 0, "pending_finding_cases": 0, "sanitizer_reports": 0,
+             "neg_probes": 0, "transitivity_checks": 0, "sanitizer_reports": 0,
              "ops": {o: 0 for o in OPS}}
     for i in insts:
         stats["rep_pairs"][i["r1"] + "x" + i["r2"]] = stats["rep_pairs"].get(i["r1"] + "x" + i["r2"], 0) + 1
@@ -978,7 +948,7 @@ def explore(prop, tier, seed, rng, wd):
         freq = []
         for i in lfinsts:
             for (v1, v2) in fpts[i["id"]]:
-                for op in OPS_COMMON + (["cmp3"] if (cpp20 and i["r1"] in FTYPES and i["r2"] in FTYPES) else []):
+                for op in OPS_COMMON + (["cmp3"] if cpp20 else []):
                     freq.append((i["id"], op, v1, v2))
                     lines.append(f"F {i['id']} {OPCODE[op]} {float(v1).hex()} {float(v2).hex()}")
         answers, errs = run_harness(exe, lines)
@@ -1001,7 +971,7 @@ def explore(prop, tier, seed, rng, wd):
                 stats["window_cells"] += int(head["cells"])
                 if len(samples) < 2:
                     samples.append({"request": l, "harness": a[:400], "model": sreq[skeys.index((ins["id"], wdw))]})
-                check_sweep(ins, wdw, head, ops, mdig.get((ins["id"], wdw)), cpp20, gates[ins["id"]], base, int(lf[2]), int(lf[3]), violations, pending, stats)
+                check_sweep(ins, wdw, head, ops, mdig.get((ins["id"], wdw)), cpp20, gates[ins["id"]], base, int(lf[2]), int(lf[3]), violations, stats)
                 distinct.add(inst_key(ins))
             elif l[0] == "P":
                 iid, op, v1, v2, o = preq[pi]
@@ -1033,11 +1003,11 @@ def explore(prop, tier, seed, rng, wd):
                     v = {"what": f"{op} on ({v1} [{ins['n1']}/{ins['d1']}] {ins['r1']}, {v2} [{ins['n2']}/{ins['d2']}] {ins['r2']}) "
                                  f"returns {r['val']} (sanitizer reports: {r['ub']}), exact answer {o['want']}",
                          "class": f"oracle-{op}-{ins['r1']}-{ins['r2']}", "rec": rec}
-                    (pending if is_pending(rec) else violations).append(v)
+                    violations.append(v)
             elif l[0] == "F":
                 iid, op, v1, v2 = freq[fi]
                 fi += 1
-                check_float(ins, op, v1, v2, kv(a), mu[ins["id"]], base, violations, stats, pending)
+                check_float(ins, op, v1, v2, kv(a), mu[ins["id"]], base, violations, stats)
         check_triangles(tri, treq, pres, cfg, violations, stats)
     # negative probes: what the model's gate rejects must be rejected by the compiler, for an Au reason
     negs = [(i, "common") for i in insts if not gates[i["id"]][0]] + [(i, "own") for i in insts if not gates[i["id"]][1]]
@@ -1059,7 +1029,6 @@ def explore(prop, tier, seed, rng, wd):
         elif not any(s in out for s in PROBE_ALLOW):
             violations.append({"what": "negative probe rejected for an unexpected reason", "class": "corr-probe", "no_input": True,
                                "broken": "probe allow-list", "rec": dict(base, out=out[-800:])})
-    stats["pending_finding_cases"] = len(pending)
     stats["window_op_evals"] = stats.get("window_op_evals", 0)
     total = stats["window_op_evals"] + stats["point_op_evals"] + stats["float_op_evals"]
     coverage = {
@@ -1075,11 +1044,9 @@ def explore(prop, tier, seed, rng, wd):
         "samples": samples,
         "exhaustive": False,
         "distribution": stats,
-        "pending_findings": [{"key": p["key"], "what": p["what"]} for p in PENDING_FINDINGS] if pending else [],
-        "pending_examples": [p["rec"] for p in pending[:5]],
         "explore_s": round(time.time() - t0, 2),
     }
-    return coverage, violations, pending
+    return coverage, violations
 
 
 def check_info(ins, r, m, gate, base, violations):
@@ -1110,7 +1077,7 @@ def check_info(ins, r, m, gate, base, violations):
                                "rec": dict(base, kind="oracle", observable="rep-" + key, got=r[key], want=t)})
 
 
-def check_sweep(ins, wdw, head, ops, mdig, cpp20, gate, base, k1, k2, violations, pending, stats):
+def check_sweep(ins, wdw, head, ops, mdig, cpp20, gate, base, k1, k2, violations, stats):
     r1, r2 = ins["r1"], ins["r2"]
     if int(head["cons_bad"]):
         v1, v2 = head["cons_first"].split(",")
@@ -1129,7 +1096,7 @@ def check_sweep(ins, wdw, head, ops, mdig, cpp20, gate, base, k1, k2, violations
                        fits_own=(in_range(r1, v1 * k1) and in_range(r2, v2 * k2)), got=f[2], want=f[3], count=cnt, window=list(wdw))
             v = {"what": f"{op} on ({v1} [{ins['n1']}/{ins['d1']}] {r1}, {v2} [{ins['n2']}/{ins['d2']}] {r2}) returns {f[2]}, exact answer {f[3]} "
                          f"({cnt} such case(s) in window {wdw})", "class": f"oracle-{op}-{r1}-{r2}", "rec": rec}
-            (pending if (not own and is_pending(rec)) else violations).append(v)
+            violations.append(v)
         for (cnt, first, own) in ((s["ubown"], s["firstubown"], True), (s["ubout"], s["firstubout"], False)):
             if cnt <= 0:
                 continue
@@ -1139,7 +1106,7 @@ def check_sweep(ins, wdw, head, ops, mdig, cpp20, gate, base, k1, k2, violations
                        fits_own=(in_range(r1, v1 * k1) and in_range(r2, v2 * k2)), count=cnt, window=list(wdw))
             v = {"what": f"{op} executes undefined behaviour / unsigned wrap-around (sanitizer report) inside the statement's scope at ({v1}, {v2})",
                  "class": f"ub-{op}-{r1}-{r2}", "rec": rec}
-            (pending if (not own and is_pending(rec)) else violations).append(v)
+            violations.append(v)
         # digest: model vs implementation on the scope of the theorems
         if mdig is None:
             violations.append({"what": "the driver rejected a sweep request", "class": "corr-driver", "no_input": True,
@@ -1302,7 +1269,7 @@ def gen_float_points(rng, ins, count):
     return pts
 
 
-def check_float(ins, op, v1, v2, r, m, base, violations, stats, pending=None):
+def check_float(ins, op, v1, v2, r, m, base, violations, stats):
     fl = [x for x in (ins["r1"], ins["r2"]) if x in FTYPES]
     p = max(FTYPES[x][1] for x in fl)              # precision of the common floating rep
     u = Fraction(1, 1 << p)
@@ -1336,17 +1303,6 @@ def check_float(ins, op, v1, v2, r, m, base, violations, stats, pending=None):
         # rounding is monotone: the order can collapse to a tie, never invert
         if amb and ((A < B and code == 2) or (A > B and code == 0)):
             ok = False
-        if not ok and ins["r1"] != ins["r2"] and pending is not None:
-            # <=> scales each operand in its OWN rep (finding F11): with float x double the float operand is scaled in
-            # float, so ties appear at float precision although `<` (computed in double) still separates the operands
-            uo = Fraction(1, 1 << min(FTYPES[x][1] for x in fl))
-            amb_own = abs(A - B) <= 2 * uo * (abs(A) + abs(B))
-            # (the two operands are rounded at different precisions, so even the order may flip inside that zone)
-            if amb_own and code in (0, 1, 2):
-                pending.append({"what": "floating <=> decides at the precision of the narrower rep (operand scaled in its own rep), "
-                                        "disagreeing with the exact order that the common rep resolves", "class": "oracle-float-cmp3",
-                                "rec": dict(rec, r1=ins["r1"], r2=ins["r2"], float_own_precision=True)})
-                return
     else:
         truth = {"eq": A == B, "ne": A != B, "lt": A < B, "le": A <= B, "gt": A > B, "ge": A >= B}[op]
         ok = code == int(truth)
@@ -1406,8 +1362,7 @@ def replay(prop, rec):
         print("model :", m)
         print("oracle:", orc)
         if orc["scope"] and (orc["want"] is None or a["val"] == "trap" or int(a["val"]) != orc["want"] or a["ub"] != "0"):
-            tag = " (matches PENDING finding F11)" if is_pending(dict(r, op=o, kind="oracle", fits_common=orc["fits_common"], fits_own=orc["fits_own"])) else ""
-            print(f"VIOLATION property={prop} replay={rec.get('_path', '<given>')}{tag}")
+            print(f"VIOLATION property={prop} replay={rec.get('_path', '<given>')}")
             code = 1
         else:
             mk = kv(m)
